@@ -33,7 +33,8 @@ register('C13',
          'tests and every Run() and return is validated step by step by the TLC trace specification TSTrace.tla.',
          'Trusted: TLC, mpmath series for the FailAt constants, the wrapper that records TestStructure.Run after it returns. '
          'Float ties at Sum = k*R with unequal exponents admit both outcomes. The generator clauses (good generators pass, '
-         'weak ones fail) are validated by the generator part when built; population uniformity of p-values is an auxiliary monitor.',
+         'weak ones fail) are validated by GenTrace.tla on real generator output; the population statement (fraction of p-values at or below '
+         '1/20, 1/100, 1/1000 over 24 / 180 runs of the good generators per test) is decided by GenTrace.Within in integer arithmetic.',
          'TLA+ spec (TestStructure.tla) model-checked with TLC + TLC-generated histories replayed into the code + TLC trace validation',
          'DESIGN.md 5/C13')
 
